@@ -129,6 +129,18 @@ def shard_methods(sh, part):
             info = cc.dataset_info['combinations'][-1]
             sh.check('info-indices', info['combination_ix'] == nf and list(info['feature_indices']) == ids and info['combination_type'] == tname, 'dataset_info:combination-record-wrong', lambda: {'info': repr(info), 'expected_ix': nf, 'expected_type': tname})
             untouched('generate_combinations')
+            # a request that fails adds no column, so it must leave no trace in the self-description either
+            n_before = len(cc.dataset_info['combinations'])
+            try:
+                cc.generate_combinations(Xm, [0, 1], None, 'non-linear')      # unknown type: no function selected
+                sh.classes['invalid combination type accepted'] += 1
+                failed = False
+            except Exception:
+                failed = True
+            if failed:
+                sh.check('info-indices', len(cc.dataset_info['combinations']) == n_before, 'dataset_info:failed-combination-left-a-record', lambda: {'records': repr(cc.dataset_info['combinations'])})
+            else:
+                cc.dataset_info['combinations'] = cc.dataset_info['combinations'][:n_before]
             # chained use: a second combination on the grown data set is recorded at the next position
             ok2, Xm2 = sh.call('combination=function', 'generate_combinations', cc.generate_combinations, Xm, [0, nf], None, 'linear')
             if ok2:
